@@ -890,6 +890,15 @@ def clone_value_cases():
             return "%s: written forms differ: %r / %r" % (what, str(a), str(b))
         if not (a == b) or not (b == a):
             return "%s: the clone does not compare equal to the original (%r)" % (what, str(a))
+    # editing the clone of a connected group with items taken from the original leaves the original (and its Gfa) as they are
+    from bounded import state as _state
+    g = gfapy.Gfa(["S\ta\t8\t*", "S\tb\t8\t*", "E\te\ta+\tb+\t6\t8$\t0\t2\t*", "O\to\ta+ b+", "U\tu\ta b"], version="gfa2")
+    before = _state.snapshot(g)
+    o, u = g.line("o"), g.line("u")
+    co, cu = o.clone(), u.clone()
+    co.append_item(o.items[0]); co.prepend_item(o.items[1]); cu.add_item(u.items[0]); co.rm_last_item(); cu.rm_item("a")
+    if _state.snapshot(g) != before or _state.wf_errors(g):
+        return "editing the clones of O o / U u with items of the originals changed the Gfa: %s" % (_state.snap_diff(before, _state.snapshot(g)) or _state.wf_errors(g))
     # placeholder lines (a segment, a link, a GFA2 segment known only from the lines that mention them): the clone is written like the original
     # (placeholder marker included), is a placeholder too, and compares equal
     for lines, pick in ((["S\ta\t*", "L\ta\t+\tb\t+\t*"], lambda g: g.segment("b")), (["S\ta\t*", "S\tb\t*", "P\tp\ta+,b+\t*"], lambda g: g.segment("a").dovetails[0]),
